@@ -19,6 +19,7 @@ import (
 	"github.com/emersion/go-webdav/caldav"
 	"github.com/emersion/go-webdav/carddav"
 	"github.com/emersion/go-webdav/internal"
+	"github.com/emersion/go-webdav/verifmc/checks"
 	"github.com/emersion/go-webdav/verifmc/engine"
 	"github.com/emersion/go-webdav/verifmc/harness"
 	"github.com/emersion/go-webdav/verifmcsync/sched"
@@ -1029,6 +1030,8 @@ func mergeShards(t *testing.T, r *engine.Run, files []string) {
 			}
 		}
 	}
+	// part D: sequential histories (degenerate schedules), single process
+	checks.SeqHistories(r, tier() != "thorough")
 	code := r.Finish()
 	if f := os.Getenv("C18_EXIT_FILE"); f != "" {
 		os.WriteFile(f, []byte(fmt.Sprint(code)), 0o644)
@@ -1050,6 +1053,26 @@ func replay(t *testing.T, file string) {
 		t.Fatal(err)
 	}
 	var out string
+	if v.Case.Part == "" {
+		var sc struct {
+			Case struct {
+				Handler       string      `json:"handler"`
+				First, Second harness.Req
+			} `json:"case"`
+		}
+		if err := jsonUnmarshal(b, &sc); err != nil {
+			t.Fatal(err)
+		}
+		ok, d := checks.ReplaySeq(sc.Case.Handler, sc.Case.First, sc.Case.Second)
+		fmt.Println(d)
+		if ok {
+			fmt.Println("RESULT: property holds on this case now")
+			return
+		}
+		fmt.Printf("VIOLATION property=C18 replay=%s\n", file)
+		t.Fail()
+		return
+	}
 	if v.Case.Part == "upload" {
 		s, o := runUpload(t, *v.Case.Upload, v.Case.Schedule)
 		out = judgeUpload(*v.Case.Upload, s, o)
